@@ -500,9 +500,9 @@ func genC06(tier string, seed uint64) []genOut {
 	}
 	// capacity sweep: block 0 is large, block 1 ends in a very short record; the value of
 	// document 128 is padded so that block 1's size sweeps across the reused buffer's capacity
-	sweep := 48
+	sweep := 64
 	if tier == "thorough" {
-		sweep = 160
+		sweep = 96
 	}
 	for pad := 0; pad < sweep; pad++ {
 		r := NewRng(seed, "C06-cap", uint64(pad))
@@ -511,7 +511,9 @@ func genC06(tier string, seed uint64) []genOut {
 		for i := 0; i < 128; i++ {
 			docs[i] = Doc{{Name: []byte("_id"), Store: true, Value: []byte{byte(i)}}}
 		}
-		big := 100 + r.Intn(60)
+		// block 0 is 128 records of 6 bytes (768 bytes, so the buffer's capacity becomes 768+16);
+		// block 1 = one record of len+7 bytes plus a 2- or 5-byte record
+		big := 768 - 40
 		docs[128] = Doc{{Name: []byte("_id"), Store: true, Value: randBytes(r, big+pad)}}
 		docs[129] = Doc{}
 		if r.Chance(1, 2) {
